@@ -177,11 +177,23 @@ class SDict:
         return len(self.d) > 0
 
 
+class MissingLocal(KeyError, Unsupported):
+    """an invariant refers to a local variable the function does not have (renamed?): undecided, never a violation"""
+
+    def __str__(self):
+        return "the contract refers to local variable %r that the function does not have (renamed or removed?)" % (self.args[0],)
+
+
+class LocalsDict(dict):
+    def __missing__(self, k):
+        raise MissingLocal(k)
+
+
 class Frame:
     __slots__ = ("locals", "fd", "globals", "closure", "defcls", "self_obj")
 
     def __init__(self, fd, globals_, closure, defcls):
-        self.locals = {}
+        self.locals = LocalsDict()
         self.fd = fd
         self.globals = globals_
         self.closure = closure
@@ -782,7 +794,11 @@ class Interp:
             return [("", truth_val(v))]
         for nm, c in parts(spec.inv(self, fr)):
             ctx.side_obligations.append(("loop-init:" + tag + nm, c, list(ctx.pc)))
-        spec.havoc(self, fr)
+        V.HAVOC_ACTIVE[0] = True
+        try:
+            spec.havoc(self, fr)
+        finally:
+            V.HAVOC_ACTIVE[0] = False
         for nm, c in parts(spec.inv(self, fr)):
             ctx.assume(c)
         if truth(self.eval(node.test, fr)):
@@ -854,7 +870,11 @@ class Interp:
         fr.locals["$iter"] = itv
         for nm, c in parts(spec.inv(self, fr)):
             ctx.side_obligations.append(("loop-init:" + tag + nm, c, list(ctx.pc)))
-        spec.havoc(self, fr)
+        V.HAVOC_ACTIVE[0] = True
+        try:
+            spec.havoc(self, fr)
+        finally:
+            V.HAVOC_ACTIVE[0] = False
         itv = fr.locals["$iter"]
         if not (isinstance(itv, SList) and isinstance(itv.base, SegBase) and not itv.items):
             raise Unsupported("for-loop invariant needs a list described by a SegBase after havoc")
